@@ -126,6 +126,7 @@ impl InlineParser {
                     #[cfg(mdit_verif)]
                     {
                         crate::verif_hooks::real_result(state.src.as_ptr() as usize, verif_at, verif_rule_idx, ok.map(|len| state.pos + len - verif_at));
+                        if ok.is_none() && state.pos != verif_at { crate::verif_hooks::failed_moved(true, verif_rule_idx, verif_at, state.pos); }
                         if let Some((silent, kept_tree, kept_pos, at)) = verif_probe {
                             // a real-mode rule may leave `pos` inside its construct (links do): the extent is
                             // what the tokenizer will advance to, measured from the probe position
